@@ -61,6 +61,17 @@ def call(mm, op, arg):
     T = set(sorted(ga.t)[:max(1, arg)])
     C = set(ga.c) - T
     return bool(mm.design_within_constraints(T, C))
+  if op == 'iroas_excursion':
+    # the caller tries another assumed iROAS, looks at the admitted geos, and puts the value back
+    saved = mm.parameters.iroas
+    mm.parameters.iroas = saved * arg
+    try:
+      sorted(mm.geos_within_constraints)
+    except ValueError:
+      pass
+    finally:
+      mm.parameters.iroas = saved
+    return None
   if op == 'exhaustive_search':
     return canon_designs(mm.exhaustive_search())
   if op == 'greedy_search':
@@ -131,8 +142,10 @@ def gen_ops(rng, n_geos):
   k = rng.randint(3, 10)
   ops = []
   for _ in range(k):
-    op = rng.choice(OPS + ['greedy_search', 'search_results', 'exhaustive_search'])
+    op = rng.choice(OPS + ['greedy_search', 'search_results', 'exhaustive_search', 'iroas_excursion'])
     arg = rng.randint(1, max(1, n_geos)) if op in ('treatment_groups', 'control_groups', 'design_within_constraints') else None
+    if op == 'iroas_excursion':
+      arg = rng.choice([8.0, 0.125, 64.0])
     ops.append((op, arg))
   return ops
 
@@ -174,7 +187,7 @@ def run(tier):
                                                                     'csizes', 'treat_groups', 'control_groups', 'count'])
   if bad:
     ck.tie_broken('correspondence', 'queries vs model: component %s' % bad[0][1], {'case': searchfam.slim(outs[bad[0][0]][0])})
-  ck.cov['rule'] = ('random call sequences of 3-10 calls over 13 public methods (constraint sets, assignments, size range, count, '
+  ck.cov['rule'] = ('random call sequences of 3-10 calls over 13 public methods and one excursion of the assumed iROAS (changed, admitted geos read, put back) (constraint sets, assignments, size range, count, '
                     'group listings, design_within_constraints, both searches, search_results) on one object built from a '
                     'generated case; each answer compared with a freshly built object; parameters compared before/after; plus '
                     'the fixed sequences search/retrieve/retrieve/greedy/queries. non-trivial: at least three calls executed')
